@@ -18,7 +18,13 @@
                                the order of tables, the choice of released players and the dispatch
                                choices (`B` explicit: `settle_bound`);
     * `rebalancing_reaches_settled`, `settled_persists` — hence among any `B + 1` sweeps one starts
-                               in a state where no table is asked anything, and that stays so.
+                               in a state where no table is asked anything, and that stays so;
+    * `rebalancing_settles_small` (end of file) — the SMALL bound: at most
+                               `2·(e+1)·max + 5·T + 2·e + 2·(max+3)·u + 1` syncs, a fortiori sweeps, ask for
+                               anything (`T` tables, `e` spare, `u` missing tables; `2·max + 5·T + 1` when
+                               there are exactly the tables needed), and `sweeps_exceed_tables`: no bound
+                               of the form `T + C` holds (3 tables, 9 players, 6 asking sweeps at max = 8;
+                               3 tables, 17 players, 14 asking sweeps at max = 16).
 
   Domain: `Reachable s` (Model/RegulatorEnv.lean) = every state obtained from a fresh regulator
   with ANY setting with `1 ≤ max` (any `min`, no relation to `max`; with `max = 0` the Go code
@@ -31,6 +37,8 @@
 -/
 import Pokerface.Proofs.RegFrame
 import Pokerface.Proofs.RegAnyProps
+import Pokerface.Proofs.RegSweepBound
+import Pokerface.Proofs.RegSweepExplore
 
 namespace Pokerface.C20
 open Pokerface Reg RSys
@@ -437,5 +445,232 @@ example : ((RSys.init 9 6).run start27).askCount (sweep1 ++ sweep2) = 2 := by de
 example : (((RSys.init 9 6).run start27).run sweep1).askCount sweep2 = 0 := by decide
 example : (((RSys.init 9 6).run start27).run sweep1).env.members =
     [(1, [7,8,9,10,11,19,20]), (2, [12,13,14,15,16,17,18]), (3, [21,22,23,24,25,26,27])] := by decide
+
+/-! ### the small bound -/
+
+/-- the small bound, closed form.  With `T` = number of tables, `R = ⌈players/max⌉` = tables
+    needed, `e = (T − R)⁺` spare tables and `u = (R − T)⁺` missing tables it is
+    `2·(e + 1)·max + 5·T + 2·e + 2·(max + 3)·u + 1`; with exactly the tables needed, `2·max + 5·T + 1`.
+    It does not mention the number of players. -/
+def small_bound (s : RSys) : Nat := Reg.smallBound s.r
+
+theorem small_bound_eq (s : RSys) :
+    small_bound s =
+      2 * ((s.r.tableCount - s.r.requiredTables).toNat + 1) * s.r.max + 5 * s.r.tables.length +
+        2 * (s.r.tableCount - s.r.requiredTables).toNat +
+        2 * (s.r.max + 3) * (s.r.requiredTables - s.r.tableCount).toNat + 1 := rfl
+
+/-- with exactly the tables needed the bound is `2·max + 5·tables + 1` -/
+theorem small_bound_balanced (s : RSys) (h : s.r.tableCount = s.r.requiredTables) :
+    small_bound s = 2 * s.r.max + 5 * s.r.tables.length + 1 := by
+  rw [small_bound_eq, h]
+  simp
+
+/-- the finer, state-dependent bound behind it: the potential `Reg.phi` of `Proofs/RegSweepDefs.lean`,
+    `2·(G + [not calm]·T + e + (max+2)·u) + D + [queue ≠ ∅]` with `G = Σ (count + Required − ⌊wl⌋)⁺`
+    and `D` the number of tables below `⌊wl⌋` -/
+def potential (s : RSys) : Nat := Reg.phi s.r
+
+/-- the only fact about the settings the small bound uses: `max > 0` (demanded by `Reachable` of the
+    initial settings; `min` is arbitrary) -/
+theorem reachable_max_pos {s : RSys} (h : Reachable s) : 0 < s.r.max := (SInv.of_reachable h).rinv.wf.maxpos
+
+theorem potential_le_small_bound {s : RSys} (h : Reachable s) : potential s ≤ small_bound s := by
+  have hS := SInv.of_reachable h
+  have hpc : 0 ≤ s.r.playerCount := by
+    rw [hS.rinv.cnt]
+    have := sumCount_nonneg s.r.tables (fun t ht => (hS.rinv.wf.bnd t ht).1)
+    omega
+  exact phi_le_smallBound s.r hS.rinv.wf (reachable_max_pos h) hpc
+
+/-- **rebalancing_settles_small**, counted in syncs.  From every reachable state, along EVERY valid
+    sequence of elimination-free syncs — any order of tables, any choice of who is released, any
+    dispatch choices — at most `small_bound s` syncs ask their table to release, receive or break.
+    The proof is a potential argument: `Reg.phi` never rises in such a sync (together with the
+    `ReleasePlayers` it triggers) and drops by at least one when the sync asks for something
+    (`RSys.quiet_step_phi`). -/
+theorem rebalancing_settles_small_syncs {s : RSys} (h : Reachable s) (ops : List EOp)
+    (hq : ∀ op ∈ ops, quietOp op = true) (hok : s.allOk ops) : s.askCount ops ≤ small_bound s :=
+  Nat.le_trans (askCount_le_phi ops s (SInv.of_reachable h) (reachable_max_pos h) hq hok)
+    (potential_le_small_bound h)
+
+/-- number of sweeps of a sequence in which at least one sync asks for something -/
+def askingSweeps : RSys → List (List EOp) → Nat
+  | _, [] => 0
+  | s, sw :: rest => (if 1 ≤ s.askCount sw then 1 else 0) + askingSweeps (s.run sw) rest
+
+theorem askingSweeps_le (sweeps : List (List EOp)) : ∀ s : RSys,
+    askingSweeps s sweeps ≤ s.askCount sweeps.flatten := by
+  induction sweeps with
+  | nil => intro _; exact Nat.zero_le _
+  | cons sw rest ih =>
+    intro s
+    have := ih (s.run sw)
+    simp only [askingSweeps, List.flatten_cons, askCount_append]
+    split <;> omega
+
+/-- **rebalancing_settles_small** (first sentence of C20, with a small bound in SWEEPS).  From every
+    reachable state `s`, take any valid sequence of elimination-free sweeps (`sweeps`: each a list of
+    syncs without eliminations — in particular each may be one sync of every open table, in any order,
+    with any choice of released players and any dispatch choices; tables broken during a sweep simply
+    drop out).  Then the number of sweeps in which at least one table is asked to release, receive or
+    break is at most `small_bound s = 2·(e+1)·max + 5·T + 2·e + 2·(max+3)·u + 1`
+    (`2·max + 5·T + 1` with exactly the tables needed): linear in the number of tables plus `max`,
+    independent of the number of players.  No covering hypothesis is needed for the count: the bound
+    holds for every way of cutting an elimination-free script into blocks.  A bound `T + C` is
+    impossible, see `sweeps_exceed_tables`. -/
+theorem rebalancing_settles_small {s : RSys} (h : Reachable s) (sweeps : List (List EOp))
+    (hq : ∀ sw ∈ sweeps, ∀ op ∈ sw, quietOp op = true) (hok : s.allOk sweeps.flatten) :
+    askingSweeps s sweeps ≤ small_bound s := by
+  have hqf : ∀ op ∈ sweeps.flatten, quietOp op = true := by
+    intro op hop
+    obtain ⟨sw, hsw, hin⟩ := List.mem_flatten.1 hop
+    exact hq sw hsw op hin
+  exact Nat.le_trans (askingSweeps_le sweeps s) (rebalancing_settles_small_syncs h _ hqf hok)
+
+/-- the usual case spelled out: when the state has exactly the tables it needs, at most
+    `2·max + 5·tables + 1` sweeps ask for anything -/
+theorem rebalancing_settles_small_balanced {s : RSys} (h : Reachable s) (hT : s.r.tableCount = s.r.requiredTables)
+    (sweeps : List (List EOp)) (hq : ∀ sw ∈ sweeps, ∀ op ∈ sw, quietOp op = true)
+    (hok : s.allOk sweeps.flatten) :
+    askingSweeps s sweeps ≤ 2 * s.r.max + 5 * s.r.tables.length + 1 := by
+  rw [← small_bound_balanced s hT]
+  exact rebalancing_settles_small h sweeps hq hok
+
+/-- the same with the state-dependent potential as bound (it is usually far smaller) -/
+theorem rebalancing_settles_potential {s : RSys} (h : Reachable s) (sweeps : List (List EOp))
+    (hq : ∀ sw ∈ sweeps, ∀ op ∈ sw, quietOp op = true) (hok : s.allOk sweeps.flatten) :
+    askingSweeps s sweeps ≤ potential s := by
+  have hqf : ∀ op ∈ sweeps.flatten, quietOp op = true := by
+    intro op hop
+    obtain ⟨sw, hsw, hin⟩ := List.mem_flatten.1 hop
+    exact hq sw hsw op hin
+  exact Nat.le_trans (askingSweeps_le sweeps s)
+    (askCount_le_phi _ s (SInv.of_reachable h) (reachable_max_pos h) hqf hok)
+
+/-- **rebalancing reaches a settled state within `small_bound + 1` sweeps**: take any valid sequence
+    of more than `small_bound s` elimination-free sweeps from a reachable state, each sweep syncing
+    every table that exists when the sweep starts (any order, possibly more than once, any choices).
+    Then one of the sweeps starts in a state in which no table is asked to release, receive or
+    break — and by `settled_persists` this remains so. -/
+theorem rebalancing_reaches_settled_small {s : RSys} (h : Reachable s) (sweeps : List (List EOp))
+    (hq : ∀ sw ∈ sweeps, ∀ op ∈ sw, quietOp op = true) (hok : s.allOk sweeps.flatten)
+    (hcover : ∀ pre sw post, sweeps = pre ++ sw :: post → ∀ t ms,
+      (s.run pre.flatten).env.membersOf t = some ms → ∃ stay rel keep ch, EOp.sync t [] stay rel keep ch ∈ sw)
+    (hlen : small_bound s < sweeps.length) :
+    ∃ pre sw post, sweeps = pre ++ sw :: post ∧ Settled (s.run pre.flatten) := by
+  have hqf : ∀ op ∈ sweeps.flatten, quietOp op = true := by
+    intro op hop
+    obtain ⟨sw, hsw, hin⟩ := List.mem_flatten.1 hop
+    exact hq sw hsw op hin
+  have hb := rebalancing_settles_small_syncs h sweeps.flatten hqf hok
+  have hex : ∃ pre sw post, sweeps = pre ++ sw :: post ∧ (s.run pre.flatten).askCount sw = 0 := by
+    apply Classical.byContradiction
+    intro hno
+    have := askCount_sweeps sweeps s (fun pre sw post he => by
+      have : ¬ (s.run pre.flatten).askCount sw = 0 := fun h0 => hno ⟨pre, sw, post, he, h0⟩
+      omega)
+    omega
+  obtain ⟨pre, sw, post, he, h0⟩ := hex
+  refine ⟨pre, sw, post, he, ?_⟩
+  have hokf : s.allOk (pre.flatten ++ (sw ++ post.flatten)) := by
+    rw [he] at hok; simpa using hok
+  have hok1 := (allOk_append s pre.flatten (sw ++ post.flatten)).1 hokf
+  have hok2 := (allOk_append (s.run pre.flatten) sw post.flatten).1 hok1.2
+  have hreach : Reachable (s.run pre.flatten) := h.run pre.flatten hok1.1
+  exact quiet_sweep_settled hreach sw (fun op hop => hq sw (by rw [he]; simp) op hop) hok2.1 h0
+    (hcover pre sw post he)
+
+/-! non-vacuity of the small bound: the rebalancing run `sweep1`, `sweep2` after `start27`
+    (three tables 3/9/9 at max 9): one asking sweep, bound `2·9 + 5·3 + 1 = 34`, potential 9 -/
+example : ∀ sw ∈ [sweep1, sweep2], ∀ op ∈ sw, quietOp op = true := by decide
+example : ((RSys.init 9 6).run start27).allOk [sweep1, sweep2].flatten := by decide
+example : askingSweeps ((RSys.init 9 6).run start27) [sweep1, sweep2] = 1 := by decide
+example : small_bound ((RSys.init 9 6).run start27) = 34 := by decide
+example : potential ((RSys.init 9 6).run start27) = 9 := by decide
+
+/-! ### a bound `tables + C` is impossible: the number of asking sweeps grows with `max`
+
+  At `max = M` (even, ≥ 8), `min = 2`: `M²` registrants make `M` tables of `M`.  Table 1 loses `M/2`
+  players (`Required := M/2 − 1`), table 2 loses `M/2 − 1` (`Required := M/2 − 2`), tables 3 … M lose
+  everybody (3 … M−1 are broken; table `M` is then the only table below the level and survives, empty,
+  with `Required = M/2`).  Now `M + 1` players sit at 3 tables (`M/2`, `M/2 + 1`, 0), two tables would
+  do, `⌊wl⌋ = M/2`.  In every sweep the table holding `M/2 + 1` is told to release one player (table
+  `M` is in deficit), and `getAvailableTable` (a Go map iteration) may hand that player to the other
+  table, whose stale `Required` is still positive, instead of table `M`: `M − 2` sweeps in a row ask
+  for something.  The stale `Required`s — the term `G` of the potential — are what a dispatch order
+  can waste one sweep at a time.  Kernel-checked below for `M = 8` (6 asking sweeps) and `M = 16`
+  (14 asking sweeps on 3 tables with 17 players: more than `tables + 10`). -/
+
+def witStart (M : Nat) : List EOp := [.add ((List.range (M * M)).map (· + 1)) [], .status .normal []]
+/-- `(table, eliminations, dispatch choices)` of the syncs that lead to the witness state -/
+def witPrep (M : Nat) : List (Nat × Nat × List Nat) :=
+  [(1, M / 2, []), (2, M / 2 - 1, [])] ++ ((List.range (M - 2)).map fun i => (i + 3, M, []))
+def witOps (M : Nat) : List EOp := witStart M ++ scriptOps ((RSys.init M 2).run (witStart M)) (witPrep M)
+def wit (M : Nat) : RSys := (RSys.init M 2).run (witOps M)
+
+/-- a sweep: the empty table `M` first, then the table at the level, then the table above it, whose
+    released player is dispatched to the other one — `swA`: table 2 releases to table 1, `swB`: table 1
+    releases to table 2, `swLast`: table 1 releases and only table `M` is left to take the player -/
+def swA (M : Nat) : List (Nat × Nat × List Nat) := [(M, 0, []), (1, 0, []), (2, 0, [1])]
+def swB (M : Nat) : List (Nat × Nat × List Nat) := [(M, 0, []), (2, 0, []), (1, 0, [2])]
+def swLast (M : Nat) : List (Nat × Nat × List Nat) := [(M, 0, []), (2, 0, []), (1, 0, [M])]
+def swAlt (M : Nat) : Nat → List (List (Nat × Nat × List Nat))
+  | 0 => []
+  | n + 1 => swA M :: swB M :: swAlt M n
+/-- `M − 2` sweeps -/
+def witSweeps (M : Nat) : List (List (Nat × Nat × List Nat)) := swAlt M (M / 2 - 2) ++ [swA M, swLast M]
+
+/-- the operations of a list of sweep scripts, sweep by sweep -/
+def sweepOps : RSys → List (List (Nat × Nat × List Nat)) → List (List EOp)
+  | _, [] => []
+  | s, sw :: rest => scriptOps s sw :: sweepOps (s.run (scriptOps s sw)) rest
+
+theorem wit8_reachable : Reachable (wit 8) :=
+  (Reachable.init 8 2 (by decide)).run (witOps 8) (by decide +kernel)
+
+theorem wit16_reachable : Reachable (wit 16) :=
+  (Reachable.init 16 2 (by decide)).run (witOps 16) (by decide +kernel)
+
+/-- **sweeps_exceed_tables** (`max = 8`): a reachable state with 3 tables and 9 players and six
+    consecutive valid elimination-free sweeps, each syncing each of the three tables exactly once,
+    each asking for something. -/
+theorem sweeps_exceed_tables :
+    Reachable (wit 8) ∧ (wit 8).r.tables.length = 3 ∧ (wit 8).r.playerCount = 9 ∧
+    (wit 8).r.requiredTables = 2 ∧
+    (∀ sw ∈ sweepOps (wit 8) (witSweeps 8), ∀ op ∈ sw, quietOp op = true) ∧
+    (wit 8).allOk (sweepOps (wit 8) (witSweeps 8)).flatten ∧
+    (sweepOps (wit 8) (witSweeps 8)).length = 6 ∧
+    askingSweeps (wit 8) (sweepOps (wit 8) (witSweeps 8)) = 6 :=
+  ⟨wit8_reachable, by decide +kernel, by decide +kernel, by decide +kernel, by decide +kernel,
+   by decide +kernel, by decide +kernel, by decide +kernel⟩
+
+/-- **sweeps_exceed_tables_plus_ten** (`max = 16`): a reachable state with 3 tables and 17 players
+    and fourteen consecutive valid elimination-free sweeps, each syncing each of the three tables
+    exactly once, each asking for something: `askingSweeps ≤ tables + 10` is false of the model. -/
+theorem sweeps_exceed_tables_plus_ten :
+    Reachable (wit 16) ∧ (wit 16).r.tables.length = 3 ∧ (wit 16).r.playerCount = 17 ∧
+    (∀ sw ∈ sweepOps (wit 16) (witSweeps 16), ∀ op ∈ sw, quietOp op = true) ∧
+    (wit 16).allOk (sweepOps (wit 16) (witSweeps 16)).flatten ∧
+    (wit 16).r.tables.length + 10 < askingSweeps (wit 16) (sweepOps (wit 16) (witSweeps 16)) :=
+  ⟨wit16_reachable, by decide +kernel, by decide +kernel, by decide +kernel, by decide +kernel,
+   by decide +kernel⟩
+
+/-- every sweep of the witness run syncs each of the open tables 1, 2 and 8 exactly once (none is
+    broken: the final sheet below still lists all three) -/
+example : (sweepOps (wit 8) (witSweeps 8)).map (fun sw => sw.map fun op =>
+      match op with
+      | .sync t _ _ _ _ _ => t
+      | _ => 0) =
+    [[8, 1, 2], [8, 2, 1], [8, 1, 2], [8, 2, 1], [8, 1, 2], [8, 2, 1]] := by decide +kernel
+
+/-- the tables of the witness: ids, counts, `Required`s; what the bound and the potential say; and
+    the settled state the run ends in (three tables where two would do, one of them with one player) -/
+example : (wit 8).sheet = [(1, 4, 3), (2, 5, 2), (8, 0, 4)] := by decide +kernel
+example : small_bound (wit 8) = 2 * 2 * 8 + 5 * 3 + 2 * 1 + 1 := by decide +kernel
+example : potential (wit 8) = 21 := by decide +kernel
+example : ((wit 8).run (sweepOps (wit 8) (witSweeps 8)).flatten).sheet = [(1, 4, 0), (2, 4, 0), (8, 1, 3)] := by
+  decide +kernel
+example : askingSweeps (wit 16) (sweepOps (wit 16) (witSweeps 16)) = 14 := by decide +kernel
 
 end Pokerface.C20
